@@ -20,7 +20,7 @@
    Assumption of the replay: the callbacks passed to the recorded calls do not
    call back into the API (the harness records only such calls as events). *)
 From Coq Require Import List NArith ZArith Bool.
-From YV Require Import Gen.CapiEffects Capi.LastError.
+From YV Require Import Gen.CapiEffects Capi.LastError Capi.Pending.
 Import ListNotations.
 Local Open Scope N_scope.
 
@@ -107,9 +107,13 @@ Definition sdump_eqb (a b : sdump) : bool :=
 Record case := mkCase {
   k_events : list obs;
   k_crashed : bool;
-  k_pairs : list (sdump * sdump) }.
+  k_pairs : list (sdump * sdump);
+  (* a sequence of set_module_data / set_module_output / set_global / scanning calls on ONE scanner with,
+     per scanning call, which module data, module output and global value its verdicts show *)
+  k_pending : list pstep }.
 
-Definition check_case (k : case) : bool := replay empty_slots (k_events k).
+Definition check_case (k : case) : bool :=
+  replay empty_slots (k_events k) && preplay (pinit 0%N) (k_pending k).
 
 Definition is_some (a : option N) : bool := match a with Some _ => true | None => false end.
 
